@@ -11,6 +11,7 @@ import (
 	"bytes"
 	"flag"
 	"fmt"
+	"math/bits"
 	"os"
 	"strings"
 	"unicode/utf8"
@@ -40,6 +41,44 @@ type CodecCase struct {
 	Panic       string `json:"panic,omitempty"`
 	Seed        uint64 `json:"seed"`
 	I           int    `json:"i"`
+	NTab        int    `json:"ntab"`
+	NRows       int    `json:"nrows"`
+	NDec        int    `json:"ndec"`
+	HTab        uint64 `json:"htab"` // digest of the table / of the decoded rows (see hashSeq)
+	HDec        uint64 `json:"hdec"`
+	Big         bool   `json:"big"` // too big to print: rows / tab / dec / pos omitted, only the Go oracle's verdict
+}
+
+// hashSeq is a polynomial digest modulo the prime 2^61-1; the check computes
+// the same function inside Coq on the model's output, so that long tables are
+// compared without being parsed by coqc (which costs ~1 ms per number).
+const hashP = (1 << 61) - 1
+const hashB = 1000003
+
+func hashStep(h uint64, x uint64) uint64 {
+	hi, lo := bits.Mul64(h, hashB)
+	lo, c := bits.Add64(lo, x+1, 0)
+	hi += c
+	_, rem := bits.Div64(hi, lo, hashP)
+	return rem
+}
+
+func hashTab(tab []uint16) uint64 {
+	var h uint64
+	for _, x := range tab {
+		h = hashStep(h, uint64(x))
+	}
+	return h
+}
+
+func hashRows(rs []starlark.VerifRow) uint64 {
+	var h uint64
+	for _, r := range rs {
+		h = hashStep(h, uint64(r.PC))
+		h = hashStep(h, uint64(int64(r.Line)+2147483648))
+		h = hashStep(h, uint64(int64(r.Col)+2147483648))
+	}
+	return h
 }
 
 func rows3(rs []starlark.VerifRow) [][3]int64 {
@@ -232,6 +271,7 @@ func runCodec(seed uint64, i int, class string) (cc CodecCase) {
 	}
 	dec := starlark.VerifDecodeLNT(line, col, tab)
 	cc.Dec = rows3(dec)
+	cc.NDec, cc.HTab, cc.HDec = len(dec), hashTab(tab), hashRows(dec)
 	want := specRows(rows)
 	cc.GoRoundtrip = len(dec) == len(want)
 	if cc.GoRoundtrip {
@@ -254,8 +294,8 @@ func runCodec(seed uint64, i int, class string) (cc CodecCase) {
 		pcs = append(pcs, 0, 1)
 		limit := len(want)
 		step := 1
-		if limit > 40 {
-			step = limit / 40
+		if limit > 12 {
+			step = limit / 12
 		}
 		for k := 0; k < limit; k += step {
 			p := want[k].PC
@@ -296,6 +336,7 @@ type FuncLNT struct {
 	Tab     []uint16   `json:"tab"`
 	Rows    [][3]int64 `json:"rows"`
 	Pos     [][3]int64 `json:"pos"` // Position(pc) for sampled pcs
+	HRows   uint64     `json:"hrows"`
 }
 
 type ProgCase struct {
@@ -590,6 +631,9 @@ func (g *gen) genFailing(name, kind string) []Frame {
 		w.s(ind + "if x == 1:\n")
 		ind += "    "
 	}
+	// what follows the failing operation: nothing, or another positioned
+	// instruction right after it (the frame's pc must not have moved on to it)
+	tail := hx.Pick(r, []string{"\n", "\n", " + x\n", " == [x, y]\n"})
 	fr := func(l, c int32) []Frame { return []Frame{{Name: name, Line: l, Col: c}} }
 	var out []Frame
 	switch kind {
@@ -599,7 +643,7 @@ func (g *gen) genFailing(name, kind string) []Frame {
 		w.s("x")
 		w.sp(r.Intn(3))
 		l, c := w.mark()
-		w.s("(1))\n")
+		w.s("(1))" + tail)
 		out = fr(l, c)
 	case "binop":
 		op := hx.Pick(r, []string{"+", "-", "//", "%", "&", "|", "^", "<<", ">>", "/"})
@@ -608,7 +652,7 @@ func (g *gen) genFailing(name, kind string) []Frame {
 		w.s("x ")
 		w.sp(r.Intn(3))
 		l, c := w.mark()
-		w.s(op + " y)\n")
+		w.s(op + " y)" + tail)
 		out = fr(l, c)
 	case "cmp":
 		op := hx.Pick(r, []string{"<", "<=", ">", ">="})
@@ -616,21 +660,21 @@ func (g *gen) genFailing(name, kind string) []Frame {
 		g.openParenAndMove()
 		w.s("x ")
 		l, c := w.mark()
-		w.s(op + " y)\n")
+		w.s(op + " y)" + tail)
 		out = fr(l, c)
 	case "in":
 		w.s(ind + "return ")
 		g.openParenAndMove()
 		w.s("y ")
 		l, c := w.mark()
-		w.s("in x)\n")
+		w.s("in x)" + tail)
 		out = fr(l, c)
 	case "unop":
 		op := hx.Pick(r, []string{"-", "~", "+"})
 		w.s(ind + "return ")
 		g.openParenAndMove()
 		l, c := w.mark()
-		w.s(op + " y)\n")
+		w.s(op + " y)" + tail)
 		out = fr(l, c)
 	case "index":
 		w.s(ind + "return ")
@@ -638,14 +682,26 @@ func (g *gen) genFailing(name, kind string) []Frame {
 		w.s(hx.Pick(r, []string{"x", "t", "y"}))
 		w.sp(r.Intn(3))
 		l, c := w.mark()
-		w.s("[7])\n")
+		w.s("[7])" + tail)
 		out = fr(l, c)
 	case "slice":
 		w.s(ind + "return ")
 		g.openParenAndMove()
 		w.s("x")
 		l, c := w.mark()
-		w.s("[1:2])\n")
+		switch r.Intn(3) {
+		case 0:
+			w.s("[1:2])" + tail)
+		case 1: // operands with their own positions, on other lines
+			w.s("[")
+			w.nl(1 + r.Intn(3))
+			w.sp(r.Intn(40))
+			w.s("len(y):")
+			w.nl(r.Intn(2))
+			w.s("x + 1])" + tail)
+		default:
+			w.s("[::x])" + tail)
+		}
 		out = fr(l, c)
 	case "attr":
 		w.s(ind + "return ")
@@ -653,7 +709,7 @@ func (g *gen) genFailing(name, kind string) []Frame {
 		w.s("x")
 		w.sp(r.Intn(3))
 		l, c := w.mark()
-		w.s(".nosuch)\n")
+		w.s(".nosuch)" + tail)
 		out = fr(l, c)
 	case "unpack":
 		w.s(ind + "a, b")
@@ -666,14 +722,14 @@ func (g *gen) genFailing(name, kind string) []Frame {
 		w.s(ind + "return ")
 		g.openParenAndMove()
 		l, c := w.mark()
-		w.s("z)\n")
+		w.s("z)" + tail)
 		w.s("    z = 1\n")
 		out = fr(l, c)
 	case "global":
 		w.s(ind + "return ")
 		g.openParenAndMove()
 		l, c := w.mark()
-		w.s("later_g)\n")
+		w.s("later_g)" + tail)
 		out = fr(l, c)
 	case "fail":
 		w.s(ind + "return ")
@@ -681,7 +737,7 @@ func (g *gen) genFailing(name, kind string) []Frame {
 		w.s("fail")
 		w.sp(r.Intn(3))
 		l, c := w.mark()
-		w.s("(\"boom\"))\n")
+		w.s("(\"boom\"))" + tail)
 		out = append(fr(l, c), Frame{Name: "fail", File: "<builtin>"})
 	case "setindex":
 		w.s(ind + "t")
@@ -710,7 +766,7 @@ func (g *gen) genFailing(name, kind string) []Frame {
 		g.openParenAndMove()
 		w.s("x ")
 		l, c := w.mark()
-		w.s(hx.Pick(r, []string{"//", "%", "/"}) + " (x - x))\n")
+		w.s(hx.Pick(r, []string{"//", "%", "/"}) + " (x - x))" + tail)
 		out = fr(l, c)
 	case "iterate":
 		w.s(ind)
@@ -724,14 +780,14 @@ func (g *gen) genFailing(name, kind string) []Frame {
 		g.openParenAndMove()
 		w.s("y")
 		l, c := w.mark()
-		w.s("(a = 1, *[2]))\n")
+		w.s("(a = 1, *[2]))" + tail)
 		out = fr(l, c)
 	case "argbind": // the callee rejects its arguments: innermost frame is the callee, position unspecified here
 		w.s(ind + "return ")
 		g.openParenAndMove()
 		w.s("g_two")
 		l, c := w.mark()
-		w.s("(x))\n")
+		w.s("(x))" + tail)
 		w.s("def g_two(a, b):\n    return a\n")
 		out = append(fr(l, c), Frame{Name: "g_two", Line: -1, Col: -1})
 	}
@@ -871,13 +927,13 @@ func runProg(seed uint64, i int, withLNT bool) ProgCase {
 	pc.BtSerOK = btMatches(bt2, pc.Expected)
 	if withLNT {
 		for fi, f := range starlark.VerifProgramLNT(prog) {
-			fl := FuncLNT{Name: f.Name, Line: f.Line, Col: f.Col, CodeLen: f.CodeLen, Tab: f.Tab, Rows: rows3(f.Rows)}
+			fl := FuncLNT{Name: f.Name, Line: f.Line, Col: f.Col, CodeLen: f.CodeLen, Tab: f.Tab, Rows: rows3(f.Rows), HRows: hashRows(f.Rows)}
 			if fl.Tab == nil {
 				fl.Tab = []uint16{}
 			}
 			step := 1
-			if f.CodeLen > 60 {
-				step = f.CodeLen / 60
+			if f.CodeLen > 24 {
+				step = f.CodeLen / 24
 			}
 			for p := 0; p < f.CodeLen; p += step {
 				l, c := starlark.VerifFuncPosition(prog, fi, uint32(p))
@@ -889,23 +945,245 @@ func runProg(seed uint64, i int, withLNT bool) ProgCase {
 	return pc
 }
 
+
+// ---------------------------------------------------------------- trace mode
+//
+// A generated program whose complete call history is known to the generator:
+// every statement is a call of the built-in probe(), a call of another
+// generated function, or the one failing operation.  probe() records
+// thread.CallStack(); the history is printed as the events of the machine of
+// coq/C16/Stack.v, with source positions (line*100000+col) standing for pcs.
+
+type TraceCase struct {
+	Kind     string       `json:"kind"` // "trace"
+	Seed     uint64       `json:"seed"`
+	I        int          `json:"i"`
+	Names    []string     `json:"names"`  // callable id -> name
+	Events   [][2]int64   `json:"events"` // (0,c) call, (1,pc) step, (2,0) return, (3,0) fail
+	Snaps    [][][2]int64 `json:"snaps"`  // observed stack (id, pc) at each probe, in order
+	ExpSnaps [][][2]int64 `json:"exp_snaps"`
+	Final    [][2]int64   `json:"final"` // observed EvalError.CallStack
+	ExpFinal [][2]int64   `json:"exp_final"`
+	Problem  string       `json:"problem,omitempty"`
+	Src      string       `json:"src,omitempty"`
+}
+
+type tstmt struct {
+	kind   int // 0 probe, 1 call, 2 fail
+	callee int
+	pc     int64
+}
+
+func runTrace(seed uint64, i int) TraceCase {
+	r := hx.NewRand(seed*3000017 + uint64(i)*15485863 + 11)
+	tc := TraceCase{Kind: "trace", Seed: seed, I: i}
+	nf := 1 + r.Intn(6)
+	probeID := nf + 1
+	tc.Names = append(tc.Names, "<toplevel>")
+	for k := 1; k <= nf; k++ {
+		tc.Names = append(tc.Names, fmt.Sprintf("g%d", k))
+	}
+	tc.Names = append(tc.Names, "probe")
+	// the failing path: toplevel -> ... -> some function; chosen as an increasing chain of indices
+	failPath := []int{0}
+	for k := 1; k <= nf; k++ {
+		if r.Intn(2) == 0 || k == nf {
+			failPath = append(failPath, k)
+		}
+	}
+	onPath := map[int]int{} // function -> next on the failing path (or -1: fails itself)
+	for k := 0; k+1 < len(failPath); k++ {
+		onPath[failPath[k]] = failPath[k+1]
+	}
+	onPath[failPath[len(failPath)-1]] = -1
+	bodies := make([][]tstmt, nf+1)
+	w := newW()
+	w.s("# generated for C16 (trace)\n")
+	writeBody := func(fi int, ind string) {
+		n := r.Intn(4)
+		var st []tstmt
+		for q := 0; q < n; q++ {
+			if r.Intn(2) == 0 || fi == nf {
+				st = append(st, tstmt{kind: 0})
+			} else {
+				st = append(st, tstmt{kind: 1, callee: fi + 1 + r.Intn(nf-fi)})
+			}
+		}
+		if nxt, ok := onPath[fi]; ok {
+			if nxt < 0 {
+				st = append(st, tstmt{kind: 2})
+			} else {
+				st = append(st, tstmt{kind: 1, callee: nxt})
+			}
+		}
+		if len(st) == 0 {
+			st = append(st, tstmt{kind: 0})
+		}
+		for q := range st {
+			w.nl(r.Intn(3))
+			w.s(ind + "_v = ")
+			w.s("(")
+			w.sp(r.Intn(50))
+			switch st[q].kind {
+			case 0:
+				w.s("probe")
+				l, c := w.mark()
+				st[q].pc = int64(l)*100000 + int64(c)
+				w.s("(x))\n")
+			case 1:
+				w.s(fmt.Sprintf("g%d", st[q].callee))
+				w.sp(r.Intn(3))
+				l, c := w.mark()
+				st[q].pc = int64(l)*100000 + int64(c)
+				w.s("(x))\n")
+			case 2:
+				w.s("x ")
+				l, c := w.mark()
+				st[q].pc = int64(l)*100000 + int64(c)
+				w.s("+ \"s\")\n")
+			}
+		}
+		bodies[fi] = st
+	}
+	// a callee never lies on the failing path unless it is the designated next
+	// one, and a function that fails must not be called earlier as a plain callee:
+	// restrict plain callees to functions off the path.
+	for fi := nf; fi >= 1; fi-- {
+		w.nl(r.Intn(4))
+		w.s(fmt.Sprintf("def g%d(x):\n", fi))
+		writeBody(fi, "    ")
+		w.s("    return x\n")
+	}
+	w.s("x = 1\n")
+	writeBody(0, "")
+	// repair: plain calls to functions that (transitively) fail would end the history early; retarget them to probes
+	fails := map[int]bool{}
+	for k := range onPath {
+		fails[k] = true
+	}
+	src := w.sb.String()
+	// simulate
+	var events [][2]int64
+	var stack [][2]int64
+	var snaps [][][2]int64
+	budget := 4000
+	var sim func(fi int) bool // false = failed
+	sim = func(fi int) bool {
+		for qi, s := range bodies[fi] {
+			if budget--; budget < 0 {
+				return true
+			}
+			last := qi == len(bodies[fi])-1
+			events = append(events, [2]int64{1, s.pc})
+			stack[len(stack)-1][1] = s.pc
+			switch s.kind {
+			case 0:
+				events = append(events, [2]int64{0, int64(probeID)})
+				snap := append(append([][2]int64{}, stack...), [2]int64{int64(probeID), 0})
+				snaps = append(snaps, snap)
+				events = append(events, [2]int64{2, 0})
+			case 1:
+				events = append(events, [2]int64{0, int64(s.callee)})
+				stack = append(stack, [2]int64{int64(s.callee), 0})
+				ok := sim(s.callee)
+				if !ok {
+					return false
+				}
+				stack = stack[:len(stack)-1]
+				events = append(events, [2]int64{2, 0})
+			case 2:
+				events = append(events, [2]int64{3, 0})
+				return false
+			}
+			_ = last
+		}
+		return true
+	}
+	events = append(events, [2]int64{0, 0})
+	stack = append(stack, [2]int64{0, 0})
+	failed := !sim(0)
+	if budget < 0 {
+		tc.Problem = "history too long"
+		return tc
+	}
+	if !failed {
+		tc.Problem = "generator: history does not fail"
+		return tc
+	}
+	tc.Events = events
+	tc.ExpSnaps = snaps
+	tc.ExpFinal = append([][2]int64{}, stack...)
+	if len(src) < 4000 {
+		tc.Src = src
+	}
+	// run the real thing
+	id := map[string]int64{}
+	for k, n := range tc.Names {
+		id[n] = int64(k)
+	}
+	conv := func(cs starlark.CallStack) [][2]int64 {
+		out := make([][2]int64, len(cs))
+		for k, f := range cs {
+			v, ok := id[f.Name]
+			if !ok {
+				v = -1
+			}
+			out[k] = [2]int64{v, int64(f.Pos.Line)*100000 + int64(f.Pos.Col)}
+		}
+		return out
+	}
+	probe := starlark.NewBuiltin("probe", func(thread *starlark.Thread, b *starlark.Builtin, args starlark.Tuple, kwargs []starlark.Tuple) (starlark.Value, error) {
+		tc.Snaps = append(tc.Snaps, conv(thread.CallStack()))
+		return starlark.None, nil
+	})
+	pre := starlark.StringDict{"probe": probe}
+	_, prog, err := starlark.SourceProgramOptions(&syntax.FileOptions{GlobalReassign: true}, progFile, src, pre.Has)
+	if err != nil {
+		tc.Problem = "does not compile: " + err.Error()
+		tc.Src = src
+		return tc
+	}
+	thread := &starlark.Thread{Name: "c16t"}
+	_, err = prog.Init(thread, pre)
+	ee, ok := err.(*starlark.EvalError)
+	if !ok {
+		tc.Problem = fmt.Sprint("no EvalError: ", err)
+		return tc
+	}
+	tc.Final = conv(ee.CallStack)
+	return tc
+}
+
 func main() {
 	mode := flag.String("mode", "codec", "codec | prog | one")
 	seed := flag.Uint64("seed", 1, "")
 	n := flag.Int("n", 100, "number of cases")
 	idx := flag.Int("i", 0, "case index (mode one)")
 	lnt := flag.Int("lnt", 0, "prog mode: dump the position tables of the first K programs")
+	maxtab := flag.Int("maxtab", 200000, "codec mode: omit the data of cases whose table is longer")
 	flag.Parse()
 	defer hx.Flush()
 	switch *mode {
 	case "codec":
 		for i := 0; i < *n; i++ {
 			class := codecClasses[i%len(codecClasses)]
-			hx.Emit(runCodec(*seed, i, class))
+			cc := runCodec(*seed, i, class)
+			cc.NTab, cc.NRows = len(cc.Tab), len(cc.Rows)
+			if cc.NTab > *maxtab && cc.GoRoundtrip && cc.GoLookup && cc.Panic == "" {
+				cc.Big = true
+				cc.Rows, cc.Tab, cc.Dec, cc.Pos = nil, nil, nil, nil
+			} else if cc.NTab > 64 && cc.GoRoundtrip && cc.Panic == "" {
+				cc.Tab, cc.Dec = nil, nil // the digests stand for them
+			}
+			hx.Emit(cc)
 		}
 	case "prog":
 		for i := 0; i < *n; i++ {
 			hx.Emit(runProg(*seed, i, i < *lnt))
+		}
+	case "trace":
+		for i := 0; i < *n; i++ {
+			hx.Emit(runTrace(*seed, i))
 		}
 	case "one":
 		src, _ := genCase(*seed, *idx)
